@@ -42,6 +42,11 @@ def scenario_script(name):
         # the end event finishes exactly at byte 4096 of the stream; the markers of the first
         # flush are written by the second one: 8 + 28 + 335*12 + 2*14 + 12 = 4096
         body = ["emitraw OB. -"] * 335 + ["emitraw OB. 0102"] * 2 + ["emitraw OHe -", "flush", "flush"]
+    elif name.startswith("bigmeta"):
+        # metadata larger than one stdio buffer (a thread that registers 300 CPUs): stream.json is written
+        # with several write() calls
+        base = base[:3] + ["cpu %d %d" % (i, i) for i in range(1, 300)] + base[3:]
+        body = ["emitraw OB. -", "flush", "emitraw OB. -", "emitraw OHe -", "flush"]
     elif name.startswith("big"):
         body = ["emitraw OB. 0102030405060708"] * 700 + ["flush"] + ["emitraw OB. -"] * 100 + ["emitraw OHe -", "flush"]
     else:
@@ -127,16 +132,22 @@ def project_calls(calls, tmpd, find):
             f, where, rd = fds[fd]
             n = c["ret"] if c["ret"] is not None and c["ret"] >= 0 else 0
             copying = fds_has_src(fds, f)
+            if copying and f == "json" and recs and recs[-1]["c"] == "copy_write_json" and recs[-1].get("_fd") == fd:
+                continue
             if copying:
-                recs.append({"c": "copy_write_" + f, "w": where, "n": n})
+                recs.append({"c": "copy_write_" + f, "w": where, "n": n, "_fd": fd})
             elif f == "obs":
                 recs.append({"c": "write_obs", "w": where, "n": n})
                 if c["ret"] is not None and c["ret"] > 0 and n != 8:
                     flushes.append(n)
             else:
-                # first metadata write = init, later = fin (decided by content on disk, here by order)
+                # first metadata write = init, later = fin (decided by content on disk, here by order);
+                # metadata larger than the stdio buffer takes several write() calls: one abstract write
+                if recs and recs[-1]["c"] in ("write_json_init", "write_json_fin", "copy_write_json") \
+                        and recs[-1].get("_fd") == fd:
+                    continue
                 kind = "write_json_fin" if any(r["c"] == "write_json_init" for r in recs) else "write_json_init"
-                recs.append({"c": kind, "w": where, "n": 0})
+                recs.append({"c": kind, "w": where, "n": 0, "_fd": fd})
             idx.append(i)
             continue
         if s == "close":
@@ -300,7 +311,7 @@ def records_for(sc, ref, res, kind, outcome, jsonlast_chunk=4096):
     for r in recs:
         if r["c"] == "mkdirs":
             r["w"] = "tmp" if sc.mode == "tmp" else "fin"
-    body = [r for r in recs] if kind == "replay" else []
+    body = [{k: v for k, v in r.items() if not k.startswith("_")} for r in recs] if kind == "replay" else []
     return [head] + body + [end]
 
 
@@ -341,9 +352,9 @@ def main(pid, tier):
         if not neg and r.violated:
             ck.violation("RtFs model violates %s" % r.violated, {"tlc.out": r.out[-20000:]})
     ck.phase("tlc")
-    names = ["small-direct", "small-tmp", "boundary-tmp", "one-direct", "one-tmp", "boundary-direct"]
+    names = ["small-direct", "small-tmp", "boundary-tmp", "one-direct", "one-tmp", "boundary-direct", "bigmeta-tmp"]
     if tier == "thorough":
-        names += ["big-tmp", "big-direct"]
+        names += ["big-tmp", "big-direct", "bigmeta-direct"]
     execs = []
     owners = []
     for name in names:
